@@ -30,9 +30,14 @@ def run(ctx):
                       "run_proc, run_with_shell and the substitution passes; every entry point reaches run_command_line")
     ctx.rule("R16-2", "the renderer used on the script path (tokens_to_line) escapes every character of S inside "
                       "untagged tokens and renders tagged tokens through wrap_sep_string(tag, text), which escapes the tag character")
+    ctx.rule("R16-3", "inside double quotes the renderer undoes exactly what the tokenizer did: every character X for which "
+                      "parse_line turns `\\X` into X inside a double-quoted word (computed by exploring its character "
+                      "loop) is a character wrap_sep_string(`\"`, text) puts a backslash in front of; otherwise the script "
+                      "path, which tokenizes, re-renders and tokenizes again, unescapes twice")
     for crate in ctx.crates:
         funnel_rule(ctx, crate)
         renderer_rule(ctx, crate)
+        dq_roundtrip_rule(ctx, crate)
 
 
 def funnel_rule(ctx, crate):
@@ -163,3 +168,54 @@ def renderer_rule(ctx, crate):
                detail=None if ok else "escape set of the renderer for untagged tokens: {%s}; in a script `echo a\\%s b` "
                                       "is re-tokenized differently from the prompt" % (
                                           ", ".join(sorted(repr(c) for c in untagged_escapes)), ch if ch != " " else " "))
+
+
+def escapes_under_tag(crate):
+    """(tag character escaped?, further constant characters escaped) by wrap_sep_string when sep is not empty"""
+    w = crate.fn("tools::wrap_sep_string")
+    if w is None:
+        return None
+    tagchar, extra = False, set()
+    for bb, t, c in w.calls():
+        if last_seg(c) == "push" and "String" in c and len(w.call_args(bb)) == 2 and const_char(w.call_args(bb)[1]) == "\\":
+            facts = dom_facts(w, bb)
+            empties = [v for a, v in facts if a[0] == "call" and last_seg(a[1]) == "is_empty"]
+            if True in empties:
+                continue
+            for a, v in facts:
+                if a[0] == "bin" and a[1] == "Eq" and v is True and const_char(a[3]):
+                    extra.add(const_char(a[3]))
+                if a[0] == "call" and last_seg(a[1]) == "eq" and v is True and \
+                        any(s_[0] == "call" and last_seg(s_[1]) == "to_string" for s_ in mir.subexprs(a)):
+                    tagchar = True
+    return tagchar, extra
+
+
+def dq_roundtrip_rule(ctx, crate):
+    from .c01 import TokenizerModel
+    b = crate.fn("parsers::parser_line::parse_line")
+    if not ctx.require(b is not None, "R16-3", "R16-3|anchor", "parsers::parser_line::parse_line not found"):
+        return
+    M = TokenizerModel(b)
+    if not ctx.require(M.ok, "R16-3", "R16-3|%s|model" % b.path, M.why or "tokenizer loop not recognised", b.path):
+        return
+    esc = escapes_under_tag(crate)
+    if not ctx.require(esc is not None, "R16-3", "R16-3|anchor|wrap", "tools::wrap_sep_string not found"):
+        return
+    tagchar, extra = esc
+    reps = sorted(M.constants() | {"a"})
+    ctx.require(len(reps) >= 10, "R16-3", "R16-3|%s|constants" % b.path,
+                "fewer character classes than expected in the tokenizer (%d)" % len(reps), b.path)
+    for X in reps:
+        bad, n = M.erased(X, "\"")
+        ctx.paths_enumerated += n
+        if not bad:
+            ctx.ob("R16-3", b.path, "inside double quotes `\\%s` keeps its backslash" % (X if X != "a" else "<other>"), True,
+                   crate=crate.kind, nontrivial=False)
+            continue
+        ok = (X == "\"" and tagchar) or X in extra
+        name = {"\\": "backslash", "\"": "double-quote"}.get(X, X)
+        ctx.ob("R16-3", b.path, "inside double quotes `\\%s` is unescaped by the tokenizer and re-escaped by the renderer" % X, ok,
+               key="R16-3|%s|dq-unescaped-not-reescaped|%s" % (b.path, name), where=b.loc(bad[0]), crate=crate.kind,
+               detail=None if ok else "a script line with \"..\\%s..\" is unescaped once more than the same line given to -c "
+               "(wrap_sep_string re-escapes only {%s})" % (X, ", ".join(sorted(extra | ({'\"'} if tagchar else set())))))
